@@ -259,6 +259,8 @@ def run(run):
                     if keycol(got[1]) != keycol(exp):
                         run.violation("%s(%d) by %s returns keys %s, expected %s" % (nm, nr, by, keycol(got[1]), keycol(exp)), {"kind": "sorted-head", "name": nm, "by": by, "n": nr})
         fused_read_heads(run, rt, tmp)
+        import select_layer
+        select_layer.select_layer(run, rt, quick)
         run.section("selections", partition_selections=nsel, head_tail_cases=nhead, sources=[s for s, _ in srcs])
         run.sample({"source": "from_array(chunksize=6)", "chain": "d + 1", "selection": [3, 0], "head": {"n": 7, "npartitions": 2}})
     finally:
